@@ -20,7 +20,8 @@ its schema consuming exactly RDLENGTH, no trailing bytes); then every writer con
 &mut [u8] and Cursor<&mut [u8]> of every capacity 0..=len+2 (sampled for long messages), Cursor<Vec> at offsets 0/2/k over empty and \
 pre-filled storage, Cursor<Box<[u8]>>, short-write writers returning Interrupted) must produce the same bytes in the written region, \
 leave other bytes untouched, succeed when capacity >= len and return Err (no panic) when smaller. non-trivial = packet with at least \
-one record or question; distinct = hash of (model, configuration)",
+one record or question; distinct = hash of (model, configuration). A constructor family builds TXT values through each public constructor (try_from(&str), with_string, add_string, \
+with_char_string, try_from(HashMap)) from texts of 0..2100 bytes (every length next to a multiple of 254/255, ASCII and multi-byte), follows them with an A record and walks all four entry points' outputs",
         assumptions: &["reference typed decoder is the framing oracle", "final stream position and the error value are not constrained"],
         exhaustive: false,
         min_distinct: 2000,
@@ -391,8 +392,123 @@ pub fn check_one(ctx: &mut Ctx, family: &str, idx: u64, p: &PktM) {
     }
 }
 
+/// TXT values made by each public constructor (some cache their encoded size), followed by another record: RDLENGTH must
+/// equal the bytes written, whichever constructor and whichever entry point.
+fn txt_ctor_case(ctx: &mut Ctx, idx: u64) {
+    use simple_dns::rdata::{RData, A, TXT};
+    use simple_dns::{CharacterString, Name, ResourceRecord, CLASS};
+    const EDGES: [usize; 17] = [0, 1, 2, 253, 254, 255, 256, 507, 508, 509, 510, 761, 762, 763, 1016, 1270, 1275];
+    let mut r = ctx.rng("txt-ctor", idx);
+    let ctor = (idx % 5) as usize;
+    let len = if (idx / 5) < EDGES.len() as u64 * 3 { EDGES[((idx / 5) % EDGES.len() as u64) as usize] } else { r.usize(0, 2100) };
+    // text of exactly `len` bytes: ASCII, or with 2- and 3-byte characters mixed in
+    let flavour = (idx / 5 / EDGES.len() as u64) % 3;
+    let mut text = String::new();
+    while text.len() < len {
+        let c = match flavour { 0 => 'x', 1 => *r.pick(&['a', 'é']), _ => *r.pick(&['b', 'é', '€']) };
+        if text.len() + c.len_utf8() <= len { text.push(c) } else { text.push('y') }
+    }
+    let names = ["try_from(&str)", "with_string", "add_string", "with_char_string", "try_from(HashMap)"];
+    ctx.case(true, fnv(format!("txt-ctor{}{}", ctor, text).as_bytes()));
+    ctx.count(&format!("txt_constructor_{}", names[ctor]));
+    let case = || json!({"family": "txt-ctor", "idx": idx, "constructor": names[ctor], "text_bytes": len, "flavour": flavour});
+    // pieces that respect character boundaries, each <= 255 bytes
+    let mut pieces: Vec<&str> = Vec::new();
+    let mut rest = text.as_str();
+    while !rest.is_empty() {
+        let mut cut = rest.len().min(255);
+        while !rest.is_char_boundary(cut) { cut -= 1; }
+        pieces.push(&rest[..cut]);
+        rest = &rest[cut..];
+    }
+    let mut map: std::collections::HashMap<String, Option<String>> = std::collections::HashMap::new();
+    if ctor == 4 {
+        for (i, pc) in pieces.iter().enumerate() {
+            let key = format!("k{}", i);
+            let room = 255 - key.len() - 1;
+            let mut cut = pc.len().min(room);
+            while !pc.is_char_boundary(cut) { cut -= 1; }
+            map.insert(key, if i % 3 == 2 { None } else { Some(pc[..cut].to_string()) });
+        }
+    }
+    let built = monitor::guard(|| -> Result<Vec<(String, Vec<u8>)>, String> {
+        let txt: TXT = match ctor {
+            0 => TXT::try_from(text.as_str()).map_err(|e| format!("{:?}", e))?,
+            1 => { let mut t = TXT::new(); for pc in &pieces { t = t.with_string(pc).map_err(|e| format!("{:?}", e))?; } t }
+            2 => { let mut t = TXT::new(); for pc in &pieces { t.add_string(pc).map_err(|e| format!("{:?}", e))?; } t }
+            3 => { let mut t = TXT::new(); for pc in &pieces { t = t.with_char_string(CharacterString::new(pc.as_bytes()).map_err(|e| format!("{:?}", e))?); } t }
+            _ => TXT::try_from(map.clone()).map_err(|e| format!("{:?}", e))?,
+        };
+        let mut pk = Packet::new_reply(idx as u16);
+        let owner = Name::new("t.example").map_err(|e| format!("{:?}", e))?;
+        pk.answers.push(ResourceRecord::new(owner.clone(), CLASS::IN, 7, RData::TXT(txt)));
+        pk.answers.push(ResourceRecord::new(owner, CLASS::IN, 9, RData::A(A { address: 0x0A0B0C0D })));
+        let mut outs = Vec::new();
+        outs.push(("build_bytes_vec".to_string(), pk.build_bytes_vec().map_err(|e| format!("build_bytes_vec: {:?}", e))?));
+        outs.push(("build_bytes_vec_compressed".to_string(), pk.build_bytes_vec_compressed().map_err(|e| format!("build_bytes_vec_compressed: {:?}", e))?));
+        let mut v = Vec::new();
+        pk.write_to(&mut v).map_err(|e| format!("write_to: {:?}", e))?;
+        outs.push(("write_to/vec".to_string(), v));
+        let mut c = Cursor::new(Vec::new());
+        pk.write_compressed_to(&mut c).map_err(|e| format!("write_compressed_to: {:?}", e))?;
+        outs.push(("write_compressed_to/cursor_vec".to_string(), c.into_inner()));
+        Ok(outs)
+    });
+    let outs = match built {
+        Err(pn) => return ctx.panic_violation("building a packet with a constructed TXT", &pn, case()),
+        Ok(Err(e)) => return ctx.violation("build-succeeds", &format!("build-error:txt-ctor:{}", names[ctor]), format!("TXT made by {} from {} bytes of text: {}", names[ctor], len, e), case()),
+        Ok(Ok(o)) => o,
+    };
+    for (what, out) in outs {
+        let problem = match decode_envelope(&out) {
+            Err(e) => Some(format!("the envelope walker fails: {:?}", e)),
+            Ok(env) => {
+                let a = &env.secs[0];
+                if env.end != out.len() { Some(format!("{} bytes follow the last entry", out.len() - env.end)) }
+                else if a.len() != 2 || a[0].rtype != 16 || a[1].rtype != 1 || a[1].rdlen != 4 || out[a[1].rd_off..a[1].rd_off + 4] != [0x0A, 0x0B, 0x0C, 0x0D] || a[1].ttl != 9 {
+                    Some("the record after the TXT record is not the A record that was written".to_string())
+                } else {
+                    // RDATA: character-strings that fill RDLENGTH exactly and carry the text
+                    let rd = &out[a[0].rd_off..a[0].rd_off + a[0].rdlen];
+                    let mut pos = 0usize;
+                    let mut joined: Vec<u8> = Vec::new();
+                    let mut strings: Vec<Vec<u8>> = Vec::new();
+                    let mut bad = None;
+                    while pos < rd.len() {
+                        let l = rd[pos] as usize;
+                        if pos + 1 + l > rd.len() { bad = Some("a character-string overruns RDLENGTH".to_string()); break; }
+                        joined.extend_from_slice(&rd[pos + 1..pos + 1 + l]);
+                        strings.push(rd[pos + 1..pos + 1 + l].to_vec());
+                        pos += 1 + l;
+                    }
+                    if bad.is_some() { bad }
+                    else if ctor != 4 && joined != text.as_bytes() { Some("the character-strings do not join to the text".to_string()) }
+                    else if ctor == 4 && {
+                        let mut want: Vec<Vec<u8>> = map.iter().map(|(k, v)| match v { Some(v) => format!("{}={}", k, v).into_bytes(), None => k.clone().into_bytes() }).collect();
+                        want.sort(); strings.sort(); want != strings && !(want.is_empty() && strings == vec![Vec::<u8>::new()])
+                    } { Some("the character-strings are not the map's entries".to_string()) }
+                    else { None }
+                }
+            }
+        };
+        match problem {
+            Some(pr) => ctx.violation("rdlength", &format!("framing:{}:txt-constructor:{}", what, names[ctor]),
+                format!("TXT made by {} from {} bytes of text, written by {}: {}", names[ctor], len, what, pr), json!({"family": "txt-ctor", "idx": idx, "constructor": names[ctor], "text_bytes": len, "bytes": hex(&out[..out.len().min(700)])})),
+            None => ctx.count("txt_constructor_outputs_well_framed"),
+        }
+    }
+}
+
 pub fn run(ctx: &mut Ctx) {
     let tier = ctx.tier;
+    if ctx.family_active("txt-ctor") {
+        let nt = if ctx.slow_tool { 60 } else { tier.pick(4_000u64, 200_000u64) };
+        for idx in 0..nt {
+            if ctx.take("txt-ctor", idx) {
+                txt_ctor_case(ctx, idx);
+            }
+        }
+    }
     let n = if ctx.slow_tool { 10 } else { tier.pick(12_000u64, 600_000u64) };
     for idx in 0..n {
         if !ctx.take("matrix", idx) {
